@@ -155,9 +155,16 @@ func genHistory(r *Rand, idx int, o histOpts) Case {
 		if q.Name != nil && proc != "MNT" {
 			lastName, lastH = q.Name, q.H
 		}
+		viaLink := false
+		if o.sandwich > 0 && len(s.Links) > 0 && (proc == "WRITE" || proc == "SETATTR" || proc == "READ") && r.Chance(20) {
+			// data and attribute requests through the handle of a symbolic link (they must be refused, not follow it)
+			q.H = s.Links[r.Intn(len(s.Links))]
+			s.Tags["via-link-handle"]++
+			viaLink = true
+		}
 		var ph uint64
 		var pn []byte
-		if o.sandwich > 0 && r.Chance(o.sandwich) {
+		if o.sandwich > 0 && (viaLink || r.Chance(o.sandwich)) {
 			switch proc {
 			case "CREATE", "MKDIR", "SYMLINK", "REMOVE", "RMDIR", "RENAME":
 				ph, pn = q.H, q.Name
@@ -167,7 +174,8 @@ func genHistory(r *Rand, idx int, o histOpts) Case {
 				}
 			}
 		}
-		sweep := pn != nil && r.Chance(30)
+		// requests through a handle can reach another name (a link's target): sweep the directory more often there
+		sweep := pn != nil && (viaLink || r.Chance(map[bool]int{true: 70, false: 30}[proc == "WRITE" || proc == "SETATTR"]))
 		probe := func(adv int64) {
 			if sweep {
 				// every ordinary name of that directory: effects on OTHER names (a link's target, the other end of a
